@@ -1,5 +1,5 @@
 """C18 - WMO conversions: okta binning, okta abbreviations and height flooring."""
-from sa.rules import wmo
+from sa.rules import wmo, rounding
 
 LEVEL = 'other'
 
@@ -8,4 +8,5 @@ def check(ctx):
     wmo.okta2code_table(ctx, 'C18-R1')
     wmo.height2code_kernel(ctx, 'C18-R2')
     wmo.perc2okta_kernel(ctx, 'C18-R3')
-    ctx.undecided += ['IEEE effects at bin edges and coding boundaries (exact-real model, A2)']
+    rounding.wmo_rounding(ctx, 'C18-R4')
+    ctx.undecided += ['IEEE effects away from the switching points of floor / ceil / round (the kernels R2 / R3 are exact-real; R4 shows that on the switching points the floating-point computation is exact, so the two agree)']
